@@ -1394,9 +1394,12 @@ class BaseLoss(object):
         index_out = list()
         # locate the target indexes
         index_list = self._getTargetParamIndex()
+        # one block per target parameter, in the order the parameters were
+        # given, and within the block the observed states in the order they
+        # were named: the layout sens_to_grad and sens_to_jtj reshape to
         if isinstance(state_index, list):
-            for j in state_index:
-                for i in index_list:
+            for i in index_list:
+                for j in state_index:
                     # always ignore the first numState because they are
                     # outputs from the actual ode and not the sensitivities.
                     # Hence the +1
@@ -1406,7 +1409,7 @@ class BaseLoss(object):
             for i in index_list:
                 index_out.append(state_index + (i + 1) * self._num_state)
 
-        return np.sort(np.array(index_out)).tolist()
+        return index_out
 
     def _getTargetParamIndex(self):
         """
@@ -1438,8 +1441,8 @@ class BaseLoss(object):
         n_s = self._num_state
         n_p = self._num_param
         if isinstance(state_index, list):
-            for j in state_index:
-                for i in index_list:
+            for i in index_list:
+                for j in state_index:
                     # always ignore the first numState because they are outputs
                     # from the actual ode and not the sensitivities
                     index_out.append(j + (i + 1 + n_p)*n_s)
@@ -1448,7 +1451,7 @@ class BaseLoss(object):
             for i in index_list:
                 index_out.append(state_index + (i + 1 + n_p)*n_s)
 
-        return np.sort(np.array(index_out)).tolist()
+        return index_out
 
     def _getTargetStateIndex(self):
         """
